@@ -130,6 +130,13 @@ def check_single(case, ev):
         if exc is not None:
             return core.exc_finding(exc, case, "run/")
     out = out[:-1] if out.endswith("\n") else out
+    if case.get("words"):
+        # a listed word that the pseudonym itself spells ($9$ strings of related plaintexts share whole groups
+        # of characters) is outside the word domain (C10): the word stage must then rewrite the pseudonym
+        ref, exc = guarded(lambda: core.run_io(FileAnonymizer(anon_pwd=True, anon_ip=False, salt=case["salt"]), line + "\n"))
+        if exc is None and any(w.lower() in ref.lower() for w in case["words"]):
+            ev.excluded_domain["listed-word-spelled-by-the-pseudonym"] += 1
+            return None
     classes = S.classify(v) if c != "text" else {"text"}
     amb = len(classes - {"hex"} if "type7" in classes and c == "type7" else classes) > 1
     enc = tuple(case["enc"]) != ("", "") and form.enclose
